@@ -262,7 +262,7 @@ def c18(c):
 def c05(c):
     quick = c.tier == "quick"
     c.small("MC_Recode", cfg="MC_Recode.cfg", workers=4)
-    c.small("MC_Recode", cfg="MC_Recode16.cfg", workers=8)
+    c.small("MC_Recode", cfg="MC_Recode16.cfg")
     c.small("MC_Recode", cfg="MC_Recode_nohead.cfg", workers=4, expect_violation=True)
     c.small("MC_Precomp", cfg="MC_Precomp.cfg", workers=8)
     progs = c.generate("Gen_Commit")
@@ -283,10 +283,10 @@ def c05(c):
 @check("C09")
 def c09(c):
     quick = c.tier == "quick"
-    c.small("MC_MsmChooser", cfg="MC_MsmChooser_quick.cfg" if quick else "MC_MsmChooser.cfg", workers=4, timeout=3600)
-    c.small("MC_MsmPartition", cfg="MC_MsmPartition.cfg", workers=4)
+    c.small("MC_MsmChooser", cfg="MC_MsmChooser_quick.cfg" if quick else "MC_MsmChooser.cfg", timeout=3600)
+    c.small("MC_MsmPartition", cfg="MC_MsmPartition.cfg")
     if not quick:
-        c.small("MC_MsmPartition", cfg="MC_MsmPartition24.cfg", workers=4, timeout=7200)
+        c.small("MC_MsmPartition", cfg="MC_MsmPartition24.cfg", timeout=7200)
     c.small("MC_MsmChan", cfg="MC_MsmChan.cfg", workers=4)
     c.small("MC_MsmChan", cfg="MC_MsmChan_nosplit.cfg", workers=4)
     c.small("MC_MsmChan", cfg="MC_MsmChan_overflow.cfg", workers=4, expect_violation=True)
